@@ -49,6 +49,10 @@ func DefaultsUniverse() *Universe {
 		// must still yield the nested record's own defaults, at any position
 		{allDef, `{}`}, {allDef, `{"x":1}`}, {ArrayOf(allDef), `[{},{"tags":[]}]`}, {MapOf(allDef), `{"k":{}}`}, {unAllDef, `{"d.RecAllDef":{}}`},
 		{nestAllDef, `{}`}, {nestAllDef, `{"inner":{}}`},
+		// numbers inside container defaults that a float64 cannot hold exactly, and float extremes at depth
+		{ArrayOf(P(Int64)), `[1,9007199254740993,-9223372036854775808]`}, {MapOf(P(Int64)), `{"p0":1234567890123456789}`},
+		{recd, `{"r":2147483647,"n":1152921504606846977}`}, {unn, `{"long":9007199254740993}`}, {ArrayOf(recd), `[{"r":1,"n":9223372036854775807}]`},
+		{ArrayOf(P(Float64)), `[1.7976931348623157e308,5e-324]`}, {MapOf(ArrayOf(P(Int64))), `{"k":[4611686018427387905]}`},
 	}
 	const per = 5
 	for i := 0; i < len(cases); i += per {
